@@ -1,10 +1,13 @@
 //go:build verif
 
-//verif:bounds more C11 program shapes, contents symbolic as in zz_verif_c11.go: name_forms (parent-prefix ^ and ^^ names inside Scope directives and inside Devices nested two deep; relative and absolute multi-segment names and Scope targets that run through two nested Devices; a method declared through such a path), scope_root (Scope(\\) written as RootChar + NullName), late_device (a name referring into a Device that is declared later through an absolute path), call_opargs (two-argument method invoked before and after its declaration with an operator expression as an argument, and as an operand of an operator), while_if (While body with a nested If followed by further statements; If body ending in a TermArg at its package end)
+//verif:bounds more C11 program shapes, contents symbolic as in zz_verif_c11.go: name_forms (parent-prefix ^ and ^^ names inside Scope directives and inside Devices nested two deep; relative and absolute multi-segment names and Scope targets that run through two nested Devices; a method declared through such a path), scope_root (Scope(\\) written as RootChar + NullName), late_device (a name referring into a Device that is declared later through an absolute path), call_opargs (two-argument method invoked before and after its declaration with an operator expression as an argument, and as an operand of an operator), while_if (While body with a nested If followed by further statements; If body ending in a TermArg at its package end, two_tables (a second table extends, through a Scope directive, a Device declared by the first: names, constants and two Buffers), deep_chain (2..7 Devices declared deepest first through absolute multi-segment paths: one resolve pass per level, up to the parser's pass limit))
 //verif:assumes shapes are enumerated (templates), contents are decided by the solver; error-message formatting stubbed; table = raw region of exactly header+program bytes
 package aml
 
 import (
+	"unsafe"
+
+	"github.com/ProjectSerenity/firefly/kernel/device/acpi/table"
 	"github.com/ProjectSerenity/firefly/kernel/zzverif"
 )
 
@@ -391,4 +394,160 @@ func Verif_C11_deferred_calls() {
 		return
 	}
 	vfCheckStmts(tree, stmts)
+}
+
+// Device(\D0.D1...D(n-1)) { Name(An-1, b) }  ...  Device(\D0.D1) { Name(A1, b) }  Device(\D0) { Name(A0, b) }: a chain
+// of n = 2..7 Devices declared deepest first through absolute multi-segment paths, so that each resolve pass can place
+// exactly one more level (the seventh level lands in the last pass the parser allows; seeded C11-w5m1 gives up one pass
+// early). Chains of 8 and more need more passes than maxResolvePasses and are outside this template. Chain names are
+// and the names declared inside each Device are concrete (DEV0..DEV6, ADR0..ADR6: with symbolic names the exploration did
+// not finish in the 8-minute box), the values and every PkgLength encoding symbolic.
+//
+//verif:split 3
+func Verif_C11_deep_chain() {
+	vfNames = nil
+	depth := 2 + zzverif.Choice("depth", 6)
+	var chain []vfName
+	for i := 0; i < depth; i++ {
+		n := vfScopeName("DEV0")
+		n[3] = byte('0' + i)
+		chain = append(chain, n)
+		vfNames = append(vfNames, n)
+	}
+	var nodes []*vfN
+	for d := depth - 1; d >= 0; d-- {
+		var prefix []byte
+		switch d {
+		case 0:
+			prefix = []byte{'\\'}
+		case 1:
+			prefix = append([]byte{'\\', 0x2e}, chain[0][:]...)
+		default:
+			prefix = append([]byte{'\\', 0x2f, byte(d + 1)}, vfSegs(chain[:d]...)...)
+		}
+		inner := vfScopeName("ADR0")
+		inner[3] = byte('0' + d)
+		nodes = append(nodes, &vfN{op: pOpDevice, prefix: prefix, name: chain[d], expPath: append([]vfName(nil), chain[:d]...),
+			kids: []*vfN{{op: pOpName, name: inner, val: zzverif.U8("const"), expPath: append([]vfName(nil), chain[:d+1]...)}}})
+	}
+	vfRun(vfProgOf(nodes...))
+}
+
+// Two-table load. Table 1 (DSDT): Scope(\_SB_) { Device(D0) { Name(A0, b) } }. Table 2 (SSDT):
+// Scope(\_SB_.D0) { Name(B0, Buffer(3){x, y, z})  Name(A1, b) }   Name(B1, Buffer(2){u, v}).
+// Objects that a later table adds to a Device of an earlier one are found under that Device, and a Buffer declared
+// there carries its size and initialiser bytes exactly like one declared at the root (its deferred block must be parsed
+// although it hangs below an object of the earlier table: seeded C11-w5m2). Device and value names, constants and
+// buffer bytes symbolic; one-byte PkgLengths.
+func Verif_C11_two_tables() {
+	vfNames = nil
+	d0, a0, b0, a1, b1 := vfNewName(), vfNewName(), vfNewName(), vfNewName(), vfNewName()
+	v0, v1 := zzverif.U8("const"), zzverif.U8("const")
+	data := zzverif.Bytes("buf", 5)
+	dev := append(append([]byte{0x5b, 0x82, 12}, d0[:]...), append(append([]byte{0x08}, a0[:]...), 0x0a, v0)...)
+	t1 := append([]byte{0x10, byte(1 + 5 + len(dev)), '\\', '_', 'S', 'B', '_'}, dev...)
+	inner := append(append([]byte{0x08}, b0[:]...), 0x11, 6, 0x0a, 3, data[0], data[1], data[2])
+	inner = append(inner, append(append([]byte{0x08}, a1[:]...), 0x0a, v1)...)
+	t2 := append([]byte{0x10, byte(1 + 10 + len(inner)), '\\', 0x2e, '_', 'S', 'B', '_'}, d0[:]...)
+	t2 = append(t2, inner...)
+	t2 = append(t2, append(append([]byte{0x08}, b1[:]...), 0x11, 5, 0x0a, 2, data[3], data[4])...)
+
+	h1, p1 := vfTable(len(t1))
+	copy(p1, t1)
+	hl := int(unsafe.Sizeof(table.SDTHeader{}))
+	buf2 := zzverif.Region("aml2", vfAmlBase+0x100000, uintptr(hl+len(t2)), 3)
+	h2 := (*table.SDTHeader)(unsafe.Pointer(&buf2[0]))
+	h2.Signature = [4]byte{'S', 'S', 'D', 'T'}
+	h2.Length = uint32(hl + len(t2))
+	h2.Revision = 2
+	copy(buf2[hl:], t2)
+
+	tree := NewObjectTree()
+	tree.CreateDefaultScopes(0)
+	parser := NewParser(vfDiscard{}, tree)
+	var perr interface{}
+	panicked := zzverif.Catch(func() {
+		if e := parser.ParseAML(1, "DSDT", h1); e != nil {
+			perr = e
+		} else if e := parser.ParseAML(2, "SSDT", h2); e != nil {
+			perr = e
+		}
+	})
+	zzverif.Assert(!panicked, "parsing well-formed tables never panics")
+	if panicked {
+		return
+	}
+	zzverif.Assert(perr == nil, "two well-formed tables are parsed successfully, the second extending a Device of the first")
+	if perr != nil {
+		return
+	}
+	zzverif.Reach("parsed")
+	sb := vfScopeName("_SB_")
+	find := func(n vfName, path []vfName) *Object {
+		var obj *Object
+		for _, o := range tree.objPool {
+			if o.opcode == pOpName && o.name == [amlNameLen]byte(n) {
+				obj = o
+			}
+		}
+		zzverif.Assert(obj != nil, "every declared object is present with its declared kind")
+		if obj == nil {
+			return nil
+		}
+		idx := obj.parentIndex
+		for k := len(path) - 1; k >= 0; k-- {
+			for idx != InvalidIndex && tree.ObjectAt(idx).name[0] == 0 {
+				idx = tree.ObjectAt(idx).parentIndex
+			}
+			zzverif.Assert(idx != InvalidIndex, "object is nested as deep as its declaration")
+			if idx == InvalidIndex {
+				return obj
+			}
+			zzverif.Assert(tree.ObjectAt(idx).name == [amlNameLen]byte(path[k]), "an object added by a later table is found at the absolute path ACPI scoping rules give it")
+			idx = tree.ObjectAt(idx).parentIndex
+		}
+		for idx != InvalidIndex && tree.ObjectAt(idx).name[0] == 0 {
+			idx = tree.ObjectAt(idx).parentIndex
+		}
+		zzverif.Assert(idx == 0, "the outermost enclosing scope is the root")
+		return obj
+	}
+	checkInt := func(n vfName, path []vfName, v uint8) {
+		if o := find(n, path); o != nil {
+			zzverif.Assert(tree.NumArgs(o) == 2, "a Name has its name and its value attached")
+			if tree.NumArgs(o) == 2 {
+				x, ok := tree.ArgAt(o, 1).value.(uint64)
+				zzverif.Assert(ok && x == uint64(v), "constants carry the encoded values")
+			}
+		}
+	}
+	checkBuf := func(n vfName, path []vfName, want []byte) {
+		o := find(n, path)
+		if o == nil {
+			return
+		}
+		zzverif.Assert(tree.NumArgs(o) == 2, "a Name has its name and its value attached")
+		if tree.NumArgs(o) != 2 {
+			return
+		}
+		b := tree.ArgAt(o, 1)
+		zzverif.Assert(b.opcode == pOpBuffer, "the value is the declared Buffer")
+		zzverif.Assert(tree.NumArgs(b) == 2, "a Buffer carries its size and its initialiser bytes, also when a later table adds it to an earlier table's Device")
+		if b.opcode != pOpBuffer || tree.NumArgs(b) != 2 {
+			return
+		}
+		size, ok := tree.ArgAt(b, 0).value.(uint64)
+		zzverif.Assert(ok && size == uint64(len(want)), "buffer size as encoded")
+		bytes, ok := tree.ArgAt(b, 1).value.([]byte)
+		zzverif.Assert(ok && len(bytes) == len(want), "buffer initialiser length as encoded")
+		if ok && len(bytes) == len(want) {
+			for i := range want {
+				zzverif.Assert(bytes[i] == want[i], "buffer bytes as encoded")
+			}
+		}
+	}
+	checkInt(a0, []vfName{sb, d0}, v0)
+	checkInt(a1, []vfName{sb, d0}, v1)
+	checkBuf(b0, []vfName{sb, d0}, data[0:3])
+	checkBuf(b1, nil, data[3:5])
 }
